@@ -949,7 +949,12 @@ class ProgramRun:
             state = dense = 'None'
             if slot is not None and slot < len(store) and store[slot] is not None:
                 state = f'(Some {carrier_lit(store[slot])})'
-                dense = f'(Some ({mlit(store[slot].todense())}))'
+                try:
+                    dense = f'(Some ({mlit(store[slot].todense())}))'
+                except Exception as e:   # noqa
+                    self.bad('DyadCarrier.todense', 'dense refinement', 'todense() of a result raised', t,
+                             expected='a matrix', got=f'{type(e).__name__}: {e}'[:300])
+                    self.broken = True
             isbatch = st['op'] == 'contract' and not isinstance(res, Exception) and np.ndim(res) >= 1
             rl = out_lit(res, isdyad, isbatch) if st['op'] not in INPLACE or isinstance(res, Exception) else '(Ok ONone)'
             self.obs.append(f'mkobs {op_lit(st)} {rl} {slot if slot is not None else 0} {state} {dense}')
@@ -969,12 +974,21 @@ class ProgramRun:
                 ctx.count('error:' + err_enum(res))
             # ---- implementation-side checks: nobody else changed, no aliasing, dense program agrees
             ctx.search_evaluations += 1
+            if getattr(self, 'broken', False):
+                break
             self.frame_check(st, t, store, objs_before, before, pool, pool_before, res, slot)
             self.oracle(st, t, store, dstore, res, slot, isdyad)
 
     # -- every object other than the in-place target is unchanged; results do not alias operands
     def frame_check(self, st, t, store, objs_before, before, pool, pool_before, res, slot):
         tgt = st.get('tgt') if st['op'] in INPLACE else None
+        if slot is not None and slot < len(store) and store[slot] is not None:
+            D = store[slot]
+            exp = (tuple(D.shape), 0 if min(D.shape) < 0 else D.shape[0] * D.shape[1], len(D.u), len(D.v))
+            got = ((D.ulen, D.vlen), D.size, D.n_dyads, D.n_dyads)
+            if exp != got:
+                self.bad('DyadCarrier.shape/size/n_dyads', 'shape, size and n_dyads describe the stored data', st['op'], t,
+                         expected=list(exp), got=list(got))
         for k, (D, snap) in enumerate(zip(objs_before, before)):
             if D is None or k == tgt:
                 continue
@@ -1082,20 +1096,20 @@ def run(ctx):
     vlib.check_props(ctx)
 
     runs = []
-    # ---- corpus first
-    for path in sorted(glob.glob(os.path.join(vlib.ROOT, 'corpus', 'C15', '*.json'))):
-        with open(path) as f:
-            doc = json.load(f)
-        for k, prog in enumerate(doc['programs']):
-            runs.append(ProgramRun(ctx, pym, steps=prog['steps'], label=f'corpus:{os.path.basename(path)}:{prog.get("name", k)}'))
-            ctx.count('corpus programs')
-    # ---- replay of a single recorded program
     if getattr(ctx, 'replay', None):
-        with open(ctx.replay) as f:
+        # ---- replay of a single recorded program (exactly the recorded steps, on the current tree)
+        with open(ctx.replay if os.path.isabs(ctx.replay) else os.path.join(vlib.ROOT, ctx.replay)) as f:
             rp = json.load(f)
-        runs = [ProgramRun(ctx, pym, steps=rp['case']['program'], label='replay')]
+        runs = [ProgramRun(ctx, pym, steps=rp['case']['program'], label=rp['case'].get('label', 'replay'))]
     else:
-        nprog = 260 if ctx.quick() else 2600
+        # ---- corpus first
+        for path in sorted(glob.glob(os.path.join(vlib.ROOT, 'corpus', 'C15', '*.json'))):
+            with open(path) as f:
+                doc = json.load(f)
+            for k, prog in enumerate(doc['programs']):
+                runs.append(ProgramRun(ctx, pym, steps=prog['steps'], label=f'corpus:{os.path.basename(path)}:{prog.get("name", k)}'))
+                ctx.count('corpus programs')
+        nprog = 700 if ctx.quick() else 6000
         g = Gen(ctx.rng, pym)
         for k in range(nprog):
             depth = ctx.rng.randint(3, 12)
